@@ -10,11 +10,17 @@
 (* Up: before the failure has been noticed, or while the monitor is        *)
 (* already pinging (then the monitor is at least that old when Redis comes *)
 (* back), followed by requests to the rescue bucket or not.                *)
+(* `step` (TokenLimit!Step) advances the caller clock by milliseconds; a   *)
+(* tick may be followed by a step (2 s + 142 ms), otherwise clock steps do *)
+(* not follow each other.  (Requests the statement does not decide are not  *)
+(* steps of TokenLimit: RescueFirm.)  DownFirst: the behaviour begins with the      *)
+(* outage (families about the in-process bucket).                          *)
 (***************************************************************************)
 EXTENDS TokenLimit, Json
 
 CONSTANTS MaxLen,     \* steps per behaviour
-          MaxDown     \* outages per behaviour (0: none)
+          MaxDown,    \* outages per behaviour (0: none)
+          DownFirst   \* BOOLEAN: the first step is Down
 
 VARIABLES hist, ndown, held
 
@@ -27,15 +33,17 @@ UpPing ==
   /\ alive' = TRUE
   /\ mode' = "redis" /\ mon' = FALSE
   /\ out' = [op |-> "up", ping |-> mon]
-  /\ UNCHANGED <<rate, burst, now, srv, tok, ts, ttlx, rtok, rlast, rused, ib, glog>>
+  /\ UNCHANGED <<rate, burst, now, sub, srv, tok, ts, ttlx, rtok, rlast, rused, rfull, qtok, qlast, ib, glog>>
 
 GNext ==
   /\ Len(hist) < MaxLen + 1
-  /\ \/ (\E n \in 1..MaxN : Allow(n)) /\ UNCHANGED <<ndown, held>>
-     \/ (\E dc \in 1..MaxStep, ds \in 0..MaxStep : ds <= dc /\ Tick(dc, ds)) /\ out.op # "tick" /\ UNCHANGED <<ndown, held>>
+  /\ \/ (\E n \in Sizes : Allow(n)) /\ UNCHANGED <<ndown, held>>
+     \/ (\E dc \in Seconds, ds \in {0} \cup Seconds : TickPair(dc, ds) /\ Tick(dc, ds)) /\ out.op \notin {"tick", "step"} /\ UNCHANGED <<ndown, held>>
+     \/ (\E d \in StepSizes : Step(d)) /\ out.op # "step" /\ UNCHANGED <<ndown, held>>
      \/ Down /\ ndown < MaxDown /\ ndown' = ndown + 1 /\ held' = FALSE
      \/ UpPing /\ UNCHANGED <<ndown, held>>
      \/ (\E h \in Holds : Wait(h)) /\ ~held /\ held' = TRUE /\ UNCHANGED ndown
+  /\ (DownFirst /\ Len(hist) = 1) => out'.op = "down"
   /\ hist' = Append(hist, out')
 
 GSpec == GInit /\ [][GNext]_gvars
